@@ -20,6 +20,6 @@ YOUR TASK: make a small, realistic change to the library source under %(wt)s/src
 
 Deliver, all inside %(wt)s:
  1. the source change left UNCOMMITTED in the working tree (so that `git -C %(wt)s diff` shows exactly your change; do not commit);
- 2. a demonstration script %(wt)s/demo_break.py (stand-alone, uses only the library, prints what it observes, exits 1 when the property is violated and 0 when it holds) that fails WITH your change and passes WITHOUT it — verify both yourself (use `git stash` / `git stash pop` to test without the change);
+ 2. a demonstration script %(wt)s/demo_break.py (stand-alone, uses only the library, prints what it observes, exits 1 when the property is violated and 0 when it holds) that fails WITH your change and passes WITHOUT it — verify both yourself (to test without the change use `git diff > /tmp/<your-worktree-name>.patch; git apply -R /tmp/<...>.patch; <run>; git apply /tmp/<...>.patch` - do NOT use `git stash`: the stash is shared by all worktrees of the repository and other agents work in sibling worktrees);
  3. confirm the full test suite still passes with your change.
 Final answer: (a) the diff, (b) one paragraph: what the change breaks and exactly what is needed for it to manifest, (c) the commands you ran and their outcomes (demo with change, demo without change, test suite).""" % dict(wt=wt, title=p['title'], statement=p['statement'], quant=p['quantifier']['text']))
